@@ -136,20 +136,20 @@ def r16_5(chk, P):
                 if sz['k'] == 'bin' and sz['op'] == '*' and F.ex[F.strip_casts(sz['c'][0])]['k'] == 'int':
                     ce = sz['c'][1]
                 b_, off_ = sk.affine(F, ce)
-                grow[sk.canon(F, F.strip_casts(nd['c'][0]))] = f'({sk.canon(F, F.strip_casts(b_))}+{off_})'
+                grow[sk.canon(F, F.strip_casts(nd['c'][0]))] = f'({common.canon_at(F, F.strip_casts(b_), sk, e)}+{off_})'
     ok = set(grow) >= {'.user_comments', '.comment_lengths'} and grow['.user_comments'] == grow['.comment_lengths'] == '(.comments+2)'
     chk.ob('R16.5', F.name, 'both-arrays-grow-by-comments+2', ok, F.where(), f'{grow}')
     # new string: malloc(length+1)
     ok2 = False
     for c in F.calls('malloc'):
         b_, off_ = sk.affine(F, F.ex[c]['c'][0])
-        a = sk.canon(F, F.strip_casts(b_))
+        a = common.canon_at(F, F.strip_casts(b_), sk, c)
         if off_ == 1 and a in ('.comment_lengths[.comments]', 'strlen($)'):
             ok2 = True
     chk.ob('R16.5', F.name, 'string-allocated-length+1', ok2, F.where(), 'the copy has room for the terminating NUL')
     # NULL terminator stored after the increment
     inc = [e for e in F.pos if F.ex[e]['k'] == 'un' and F.ex[e]['op'] in ('post++', 'pre++') and sk.canon(F, F.strip_casts(F.ex[e]['c'][0])) == '.comments']
-    nul = [e for e in F.pos if F.ex[e]['k'] == 'assign' and sk.canon(F, F.strip_casts(F.ex[e]['c'][0])) == '.user_comments[.comments]'
+    nul = [e for e in F.pos if F.ex[e]['k'] == 'assign' and common.canon_at(F, F.strip_casts(F.ex[e]['c'][0]), sk, e) == '.user_comments[.comments]'
            and common.is_zero(F, F.ex[e]['c'][1])]
     ok3 = bool(inc) and bool(nul) and all(cfg.pos_dominates(F, inc[0], n_) for n_ in nul)
     chk.ob('R16.5', F.name, 'terminator-at-incremented-count', ok3, F.where(nul[0]) if nul else F.where(),
